@@ -24,7 +24,7 @@ def grids() -> Dict[str, Any]:
         "G": G,
         "G2": G.resize((5, 4)),
         "Gac": G.align_corners(False),
-        "Gother": Grid(size=(6, 8), spacing=(2.0, 0.5), center=(-3.0, 4.0), direction=_rot(-50), align_corners=False),
+        "G3": G.resize((13, 10)),
         "Gfine": G.resize((17, 13)),
     }
 
